@@ -26,7 +26,7 @@ PROP = "C20"
 OPTIONS = {"project": "W", "src_dir": "./src", "output_dir": "./doc", "preprocess": False, "parallel": 0,
            "search": False, "graph": False}
 PREFIX = "zz"
-STATED = {"ends_in_predoc", "many_rejected", "surplus_end_append", "surplus_end_tail", "copy_end_at_eof", "copy_trunc_stmt", "copy_extra_end", "copy_trunc_byte", "trunc_stmt", "trunc_byte", "splice", "lost_block", "byteflip", "undecodable", "empty", "whitespace",
+STATED = {"bad_namelist", "semicolon_tail", "ends_in_predoc", "many_rejected", "surplus_end_append", "surplus_end_tail", "copy_end_at_eof", "copy_trunc_stmt", "copy_extra_end", "copy_trunc_byte", "trunc_stmt", "trunc_byte", "splice", "lost_block", "byteflip", "undecodable", "empty", "whitespace",
           "extra_end", "missing_end", "dup_contains", "misplaced_contains", "malformed", "binary", "long_line",
           "crlf_mix"}
 
